@@ -28,6 +28,17 @@ Example C11_gen_hooks :
   length gen_on_close_installed = 10%nat /\ forallb (fun b => b) gen_on_close_installed = true.
 Proof. repeat split; vm_compute; reflexivity. Qed.
 
+(* the system transport's pty child (ptyprocess.py): PtyProcess.close() as it is in the source reaps the child
+   and closes the master fd from EVERY state of an un-closed object — EOF read or not — (decided by running it
+   from all 24 states x 4 environments), does nothing on a closed one; and the parent part of spawn() wraps
+   pid / fd in a PtyProcess before any statement that can raise *)
+Example C11_gen_pty_close_ok : pty_close_ok gen_pty_close = true.
+Proof. vm_compute. reflexivity. Qed.
+Example C11_gen_pty_spawn_ok : spawn_ok gen_pty_spawn = true.
+Proof. vm_compute. reflexivity. Qed.
+Example C11_gen_pty_twins : gen_pty_close = pty_close_now /\ gen_pty_spawn = pty_spawn_now.
+Proof. split; vm_compute; reflexivity. Qed.
+
 (* ---- the property ---- *)
 (* After close() returns or raises nothing is held: for every state the connection may be in, every
    on_close hook (absent / any list of device interactions and raises) and every device outcome. *)
@@ -132,6 +143,45 @@ Proof.
   exact (reopen_negotiation_invisible gen_progs_async C11_gen_async_ok (proj1 C11_gen_open_async) (proj2 C11_gen_open_async)).
 Qed.
 Print Assumptions C11_reopen_negotiation_invisible_async.
+
+(* ---- the ssh child of the system transport ---- *)
+(* PtyProcess.close() (run by SystemTransport.close(), and by __del__) on an un-closed object, in every state
+   and whatever the signals achieve: when it returns the child has been waited for (no defunct process), the
+   master fd is closed; it raises only when the child survives SIGKILL; it does return or raise unless an EOF
+   was read while the child still runs and the child survives the SIGHUP of the closed master *)
+Theorem C11_pty_close_reaps : forall E s,
+  y_closed s = false -> (y_eof s = true -> y_child s = CRunning -> hup_exits E = true) ->
+  match prun E gen_pty_close s with
+  | (s', PDone) => y_child s' = CReaped /\ y_fd s' = false /\ y_closed s' = true
+  | (_, PRaised) => kill_works E = false
+  | (_, PBlocks) => False
+  end.
+Proof. exact (pty_close_reaps gen_pty_close C11_gen_pty_close_ok). Qed.
+Print Assumptions C11_pty_close_reaps.
+
+Theorem C11_pty_close_idempotent : forall E s, y_closed s = true ->
+  exists s', prun E gen_pty_close s = (s', PDone) /\ y_child s' = y_child s /\ y_fd s' = y_fd s /\ y_closed s' = true.
+Proof. exact (pty_close_idempotent gen_pty_close C11_gen_pty_close_ok). Qed.
+Print Assumptions C11_pty_close_idempotent.
+
+(* a failure of open() after the fork (exec of the ssh binary failing, setwinsize / termios raising): the child
+   and the pty master are owned by a PtyProcess object on every exit of spawn(), and its close() releases them *)
+Theorem C11_pty_open_failure_released : forall fails E c,
+  fst (srun gen_pty_spawn fails false) = true /\
+  match prun E gen_pty_close (mkPty c true false false) with
+  | (s', PDone) => y_child s' = CReaped /\ y_fd s' = false /\ y_closed s' = true
+  | (_, PRaised) => kill_works E = false
+  | (_, PBlocks) => False
+  end.
+Proof. exact (pty_spawn_then_close gen_pty_spawn gen_pty_close C11_gen_pty_spawn_ok C11_gen_pty_close_ok). Qed.
+Print Assumptions C11_pty_open_failure_released.
+
+(* the full statement (close() returns with the child reaped from EVERY state) is false of the code as it is:
+   a child that closed its tty — EOF was read —, ignores SIGHUP and keeps running makes close() wait for it
+   (blocking waitpid) *)
+Theorem C11_pty_close_full_refuted : ~ pty_close_full pty_close_now.
+Proof. exact pty_close_full_refuted. Qed.
+Print Assumptions C11_pty_close_full_refuted.
 
 (* ---- the pinned commit: refuted ---- *)
 Theorem C11_baseline_close_refuted : ~ (forall e c, released (fst (do_close progs_baseline e c))).
